@@ -234,11 +234,13 @@ def make(cfg):
             Rf = symdata.choice(c, 'badframe', [list(Rt.rows), None])
         snaps = tuple(f.snapshot() for f in (Lf, Rf) if isinstance(f, pdmodel.FakeFrame))
         cand = None
+        info_empty = [False]
         if entry.startswith('filter_candset') or entry == 'apply_matcher':
             crows = [(0, r[0], q[0]) for r in Lt.rows[:1] for q in Rt.rows[:2] if r[0] is not None
                      and q[0] is not None]
             if symdata.choice(c, 'emptycand', [False, True]):
                 crows = []            # a candidate set without rows is still a valid candidate set
+                info_empty[0] = True
             cand = pdmodel.FakeFrame(crows, columns=['_id', 'l_id', 'r_id'])
             if invalid == 'candset-not-frame':
                 cand = crows
@@ -264,7 +266,7 @@ def make(cfg):
                           'r_dtypes': dict((k2, v.name) for k2, v in Rt.dtypes.items()),
                           'args': dict((k2, v) for k2, v in args.items() if k2 in (
                               'l_key', 'r_key', 'l_attr', 'r_attr', 'l_out', 'r_out')),
-                          'cand_keys': [ck, crk]})
+                          'cand_keys': [ck, crk], 'empty_cand': info_empty[0]})
                 return d
             return mk
 
